@@ -184,6 +184,12 @@ def round_trip(obj, huge, role='top', parser_cls=None, use_wrappers=False):
 
 def _obtain(case):
     """-> (object or None, status, huge)"""
+    if 'text_model' in case:
+        from vf.props import c18  # pylint: disable=import-outside-toplevel
+        built = lib.call(c18.build, case['type'], case['text_model'])
+        if not built.ok:
+            return None, 'constructor-rejects:' + type(built.exc).__name__, False
+        return built.value, 'built', False
     if 'spec' in case:
         built = lib.call(specs.build, case['spec'])
         if not built.ok:
@@ -208,6 +214,11 @@ def judge(case):
     if status in ('ok', 'finding') and data is not None:
         for child in nested_parsables(obj):
             _child_status, child_findings, _ = round_trip(child, huge, role='nested in ' + _short(type(obj)))
+            if 'text_model' in case and status == 'ok':
+                # a component of a text value is spelled inside its parent (JSON escapes, quoting); on its own it may
+                # not be expressible at all (non-ASCII text in an ASCII header): its stand-alone compose refusing with
+                # a documented error while the parent round-trips is not a deviation
+                child_findings = [f for f in child_findings if not f.key.startswith('compose-raises:InvalidValue/')]
             findings.extend(child_findings)
     return ('finding' if findings else status), findings, data
 
@@ -348,7 +359,45 @@ def _parsed_job(arg):
     return stats
 
 
+def _text_job(arg):
+    """Text families (HTTP header values, TXT policies): objects built through the public constructors from the semantic
+    models of the grammar generator (vf/gen/textgen.py) by the adapter of C18 - the object source these classes lack a
+    spec strategy for."""
+    type_name, examples, seed_value, budget_s = arg
+    from vf.gen import textgen  # pylint: disable=import-outside-toplevel
+    from vf.props import c18  # pylint: disable=import-outside-toplevel
+    stats = Stats()
+
+    from vf import run as runner  # pylint: disable=import-outside-toplevel
+    c18_open = runner.load_known('C18')[0]
+
+    def case_fn(model, inner):
+        case = {'text_model': model, 'type': type_name}
+        # a model whose canonical spelling already shows a recorded open C18 finding (same root cause: the parser's
+        # reading of that spelling) is C18's to report; anything C18 has no record of stays in
+        try:
+            theirs = c18.check_case({'kind': 'value', 'type': type_name, 'model': model, 'spellings': []})
+        except Exception:  # pylint: disable=broad-except
+            theirs = []
+        if any(runner.match_known(c18_open, finding.key) is not None for finding in theirs):
+            inner.labels['text-model:skipped(shows an open C18 finding)'] += 1
+            return ()
+        inner.evaluations += 1
+        status, findings, data = judge(case)
+        inner.labels['text-model:' + status.split(':')[0]] += 1
+        if data is not None:
+            inner.classes[_short(c18.L().value_classes[type_name])] += 1
+            inner.nontriv(type_name.encode() + b'|' + data)
+        return findings
+    hyp.explore(textgen.models(type_name), case_fn, stats, examples, seed_value, budget_s=budget_s)
+    for entry in stats.findings.values():
+        entry['case'] = {'text_model': entry['case'], 'type': type_name}
+    return stats
+
+
 def _job(arg):
+    if arg[0] == 'text':
+        return _text_job(arg[1:])
     return _spec_job(arg[1:]) if arg[0] == 'spec' else _parsed_job(arg[1:])
 
 
@@ -368,6 +417,8 @@ def run(ctx):
     per_class = 120 if ctx.quick else 2500
     budget_s = 100 if ctx.quick else 1500
     jobs = _spec_jobs(ctx, per_class, budget_s) + [('parsed', index, budget_s) for index in range(N_SHARDS)]
+    from vf.gen import textgen  # pylint: disable=import-outside-toplevel
+    jobs += [('text', type_name, per_class, ctx.derive_seed('text', type_name), budget_s) for type_name in textgen.TYPES]
     stats = pool.run_shards(_job, jobs)
     covered, uncovered = registry.coverage()
     stats.extra['classes_with_spec_strategy'] = len(covered)
